@@ -554,9 +554,105 @@ class _DropAnnotations(ast.NodeTransformer):
         return ast.copy_location(ast.Assign(targets=[node.target], value=node.value, type_comment=None), node)
 
 
+def _expand_wrapping_decorators(tree: ast.Module) -> int:
+    """ND: a function decorated with a module-level decorator of the standard shape
+
+        def deco(m):
+            @functools.wraps(m)
+            def wrapper(p1, p2, ...):        # the same positional parameters as the decorated function
+                PRE                          # does not mention m
+                return m(p1, p2, ...)        # every parameter forwarded, in order
+            return wrapper
+
+    is the function whose body is PRE (wrapper's parameter names renamed to the function's own) followed by its own body, with
+    the wrapper's defaults.  That is what the decorated name is bound to, statement for statement."""
+    import copy
+    decos = {}
+    for node in tree.body:
+        if not isinstance(node, ast.FunctionDef) or len(node.args.args) != 1 or node.args.vararg or node.args.kwarg or node.args.kwonlyargs:
+            continue
+        body = [s for s in node.body if not (isinstance(s, ast.Expr) and isinstance(s.value, ast.Constant))]
+        if len(body) != 2 or not isinstance(body[0], ast.FunctionDef) or not isinstance(body[1], ast.Return) or \
+                not (isinstance(body[1].value, ast.Name) and body[1].value.id == body[0].name):
+            continue
+        m = node.args.args[0].arg
+        w = body[0]
+        if w.args.vararg or w.args.kwarg or w.args.kwonlyargs or w.args.posonlyargs:
+            continue
+        wb = [s for s in w.body if not (isinstance(s, ast.Expr) and isinstance(s.value, ast.Constant))]
+        if not wb or not isinstance(wb[-1], ast.Return) or not isinstance(wb[-1].value, ast.Call):
+            continue
+        call = wb[-1].value
+        wparams = [a.arg for a in w.args.args]
+        if not (isinstance(call.func, ast.Name) and call.func.id == m and not call.keywords and
+                [a.id if isinstance(a, ast.Name) else None for a in call.args] == wparams):
+            continue
+        pre = wb[:-1]
+        if any(isinstance(y, ast.Name) and y.id == m for s in pre for y in ast.walk(s)):
+            continue
+        if any(isinstance(y, (ast.Nonlocal, ast.Global, ast.Yield, ast.YieldFrom)) for s in pre for y in ast.walk(s)):
+            continue
+        decos[node.name] = (w, pre, wparams)
+    if not decos:
+        return 0
+    n = 0
+    for node in ast.walk(tree):
+        if not isinstance(node, ast.FunctionDef) or not node.decorator_list:
+            continue
+        for d in list(node.decorator_list):
+            if isinstance(d, ast.Name) and d.id in decos:
+                w, pre, wparams = decos[d.id]
+                fparams = [a.arg for a in node.args.args]
+                if len(fparams) != len(wparams) or node.args.vararg or node.args.kwarg or node.args.kwonlyargs or node.args.posonlyargs:
+                    continue
+                ren = dict(zip(wparams, fparams))
+                locals_f = {y.id for s in node.body for y in ast.walk(s) if isinstance(y, ast.Name)}
+                pre_locals = {y.id for s in pre for y in ast.walk(s) if isinstance(y, ast.Name) and isinstance(y.ctx, ast.Store)}
+                if pre_locals & (locals_f | set(fparams)):
+                    continue            # the prelude's own locals would capture names of the function
+
+                class R(ast.NodeTransformer):
+                    def visit_Name(s, x):
+                        return ast.copy_location(ast.Name(id=ren.get(x.id, x.id), ctx=x.ctx), x)
+                newpre = [R().visit(copy.deepcopy(s)) for s in pre]
+                doc = [s for s in node.body[:1] if isinstance(s, ast.Expr) and isinstance(s.value, ast.Constant)]
+                node.body = doc + newpre + node.body[len(doc):]
+                node.args.defaults = copy.deepcopy(w.args.defaults)
+                node.decorator_list.remove(d)
+                ast.fix_missing_locations(node)
+                n += 1
+    return n
+
+
+def _straight_line_generators(tree: ast.Module) -> int:
+    """NG: a generator whose body is plain assignments followed by a fixed sequence of `yield <call-free expression>` statements
+    produces exactly those values in that order: for every consumer (unpacking, a for loop, tuple()) it is the tuple of them."""
+    n = 0
+    for node in ast.walk(tree):
+        if not isinstance(node, ast.FunctionDef):
+            continue
+        body = [s for s in node.body if not (isinstance(s, ast.Expr) and isinstance(s.value, ast.Constant))]
+        k = 0
+        while k < len(body) and isinstance(body[k], ast.Assign) and len(body[k].targets) == 1 and isinstance(body[k].targets[0], ast.Name) \
+                and not any(isinstance(y, (ast.Call, ast.Yield, ast.YieldFrom)) for y in ast.walk(body[k].value)):
+            k += 1
+        ys = body[k:]
+        if len(ys) < 2 or len(ys) > 8 or not all(isinstance(s, ast.Expr) and isinstance(s.value, ast.Yield) and s.value.value is not None and
+                                                not any(isinstance(y, (ast.Call, ast.Yield, ast.YieldFrom, ast.NamedExpr))
+                                                        for y in ast.walk(s.value.value)) for s in ys):
+            continue
+        doc = [s for s in node.body[:1] if isinstance(s, ast.Expr) and isinstance(s.value, ast.Constant)]
+        ret = ast.Return(value=ast.Tuple(elts=[s.value.value for s in ys], ctx=ast.Load()))
+        ast.copy_location(ret, ys[0])
+        node.body = doc + body[:k] + [ret]
+        ast.fix_missing_locations(node)
+        n += 1
+    return n
+
+
 def normalise_module(tree: ast.Module) -> int:
     """Apply the normal forms to every function of the module, in place; returns the number of rewrites."""
-    n = 0
+    n = _expand_wrapping_decorators(tree) + _straight_line_generators(tree)
     uses_annotations = any(isinstance(x, ast.Attribute) and x.attr == '__annotations__' or
                            isinstance(x, ast.Name) and x.id in ('dataclass', 'get_type_hints', 'NamedTuple') for x in ast.walk(tree))
     if not uses_annotations:
